@@ -327,6 +327,7 @@ type dnsWorld struct {
 	envBudget int
 	envTasks  int
 	reloads   int
+	fwdsAtReset int
 	lruBatch  []*dnsEntryObs
 	lruBefore int
 	lruAt     time.Duration
